@@ -25,7 +25,8 @@ def run(pid, tier, phases=()):
     res = C.Result(pid, tier)
     known = [k for k in C.load_known().get("findings", []) if k.get("property") == pid]
     with C.Lock():
-        lean_ok, names = C.lean_phase(res, pid, gen_fn=regen_capi)
+        lean_ok, names = C.lean_phase(res, pid, gen_fn=C.both(regen_capi, C.regen_limits) if pid == "C15" else regen_capi,
+                                      extra_props=["C10Limits"] if pid == "C15" else [])
     for ph in phases:
         ph(res, tier)
     out = k6.explore(tier, C.seed())
